@@ -93,3 +93,8 @@ add('C13', 'THR', 'model_checking',
     'Real threads run the real put_job / process_task / Job.__eq__ under a baton scheduler with cooperative queue locks; every schedule with at most 2 (thorough 3) preemptions at source-line granularity is executed; oracle: every accepted request is followed by an evaluation of that key that starts after the request arrived; after every job it is finished, recorded with the right status and the current-job marker is cleared; the worker is alive and waiting at quiescence; no deadlock. A free-running pass of the same bodies can only add crash alarms.',
     'CPython GIL semantics; dispatch replaced by a recorder with a scripted outcome; states/transitions in the evidence are schedules (stateless search).',
     'stateless preemption-bounded exploration of real threads (CHESS style)', 'DESIGN.md section 5 C13')
+
+add('C14', 'ENUM', 'exploration',
+    'The full matrix: every API rule registered in app.url_map x 5 HTTP methods x session {none, user, admin} x valid / invalid parameters; every management form x session x data x CSRF token with the form-to-API call looped back into the application; both webhook routes x credentials x repository identity x handled / unhandled events on a Bitbucket- and a GitHub-configured instance; oracle table from the statement (job iff authorised and valid, error status and empty queue otherwise, job class / user / settings exactly the validated parameters).',
+    'sessions set as the pinned test_server does; GitHub client stubbed for the two events that fetch data.',
+    'exhaustive matrix enumeration vs oracle table', 'DESIGN.md section 5 C14')
